@@ -189,8 +189,14 @@ func describeN(v ssa.Value, depth int) string {
 	case *ssa.Function:
 		return x.Name()
 	case *ssa.FieldAddr:
+		if promotedThrough(x.X.Type(), x.Field) {
+			return describeN(x.X, depth+1)
+		}
 		return describeN(x.X, depth+1) + "." + fieldName(x.X.Type(), x.Field)
 	case *ssa.Field:
+		if promotedThrough(x.X.Type(), x.Field) {
+			return describeN(x.X, depth+1)
+		}
 		return describeN(x.X, depth+1) + "." + fieldName(x.X.Type(), x.Field)
 	case *ssa.UnOp:
 		if x.Op == token.MUL {
@@ -204,7 +210,7 @@ func describeN(v ssa.Value, depth int) string {
 	case *ssa.Extract:
 		return describeN(x.Tuple, depth+1) + "#" + fmt.Sprint(x.Index)
 	case *ssa.TypeAssert:
-		return describeN(x.X, depth+1) + ".(" + types.TypeString(x.AssertedType, func(p *types.Package) string { return p.Name() }) + ")"
+		return describeN(x.X, depth+1) + ".(" + typeString(x.AssertedType, func(p *types.Package) string { return p.Name() }) + ")"
 	case *ssa.MakeInterface:
 		return describeN(x.X, depth+1)
 	case *ssa.ChangeType:
@@ -212,7 +218,7 @@ func describeN(v ssa.Value, depth int) string {
 	case *ssa.ChangeInterface:
 		return describeN(x.X, depth+1)
 	case *ssa.Convert:
-		return types.TypeString(x.Type(), nil) + "(" + describeN(x.X, depth+1) + ")"
+		return typeString(x.Type(), nil) + "(" + describeN(x.X, depth+1) + ")"
 	case *ssa.Call:
 		name := "call"
 		if c := x.Call.StaticCallee(); c != nil {
@@ -262,7 +268,30 @@ func describeN(v ssa.Value, depth int) string {
 
 // typeName without package path qualification beyond the package name.
 func typeStr(t types.Type) string {
-	return types.TypeString(t, func(p *types.Package) string { return p.Name() })
+	return typeString(t, func(p *types.Package) string { return p.Name() })
+}
+
+// typeString is types.TypeString with the predeclared alias `any` written out as interface{} wherever it occurs: the two
+// spellings are one type, and every table of the analysis is keyed by the printed form.
+func typeString(t types.Type, q types.Qualifier) string {
+	s := types.TypeString(t, q)
+	if !strings.Contains(s, "any") {
+		return s
+	}
+	isWord := func(c byte) bool {
+		return c == '_' || c >= '0' && c <= '9' || c >= 'a' && c <= 'z' || c >= 'A' && c <= 'Z' || c >= 0x80
+	}
+	var b strings.Builder
+	for i := 0; i < len(s); {
+		if strings.HasPrefix(s[i:], "any") && (i == 0 || (!isWord(s[i-1]) && s[i-1] != '.')) && (i+3 == len(s) || !isWord(s[i+3])) {
+			b.WriteString("interface{}")
+			i += 3
+			continue
+		}
+		b.WriteByte(s[i])
+		i++
+	}
+	return b.String()
 }
 
 // instrsOf iterates over all instructions of a function.
